@@ -12,10 +12,10 @@ CHECKS = {
  "C02": ("exploration", "runtime monitoring: wire-level reference comparator (announced size/mtime, READ count + bytes, READCRIT bytes / prefix-then-EOF) over plain files, generated images and decrypted views",
          "Every response byte of open/read/read-critical sessions against the real server is compared with an independent copy of the object (disk bytes, ISO layout map, reference AES) for boundary and random (offset,limit) pairs and several transfer-buffer sizes.",
          "Trusted: harness wire codec, reference decryptor (anchored on openssl), ISO layout reader; limits < 2^31 and <= 64 MiB per READ.", "4/C02"),
- "C03": ("exploration", "runtime monitoring: sequential protocol reference model with admissible sets checked online against lock-step sessions; bounded-exhaustive sequences + random sessions + truncation matrix; differential re-delivery (pipelined / byte-wise)",
-         "Bounded-exhaustive over all request sequences up to length k of a 33-symbol alphabet in both write modes, plus random sessions up to 60 requests and every truncation point of every alphabet request; each response byte must be explained by the model, the stream must stay in sync (fence request), and the same session delivered pipelined or byte-by-byte must yield the same stream.",
+ "C03": ("exploration", "runtime monitoring: sequential protocol reference model with admissible sets checked online against lock-step sessions; bounded-exhaustive sequences + scripted cross-state histories + random sessions + truncation matrix; differential re-delivery (pipelined / byte-wise); CPU-progress-aware watchdog",
+         "Bounded-exhaustive over all request sequences up to length k of a 38-symbol alphabet in both write modes, plus random sessions up to 60 requests and every truncation point of every alphabet request; each response byte must be explained by the model, the stream must stay in sync (fence request), and the same session delivered pipelined or byte-by-byte must yield the same stream.",
          "Trusted: the harness codec and model (Appendix B of DESIGN.md); watchdog 10 s with liveness probe decides hangs.", "4/C03"),
- "C04": ("exploration", "runtime monitoring: process monitor (exit status, panic/fatal traces), liveness probe and victim connection under hostile streams, read geometries, hostile on-disk content; CLI tools exit status",
+ "C04": ("exploration", "runtime monitoring: process monitor (exit status, panic/fatal traces), liveness probe, victim connection and a neither-answered-nor-closed verdict (tied to file-system activity) under hostile streams, read geometries, hostile on-disk content (incl. named pipes, sparse files with huge declared sizes), descriptor exhaustion; CLI tools exit status; image creation probed in a memory-capped child",
          "Random, mutated and structure-aware hostile sessions and hostile on-disk inputs against worker processes hosting the real server (memory-capped) and against the real CLI tools; the process must survive, keep serving a fresh probe and an in-flight victim transfer; tools must exit by error, not crash.",
          "Assumes an 8 GiB address-space cap stands in for a small machine; trusted: process monitor.", "4/C04"),
  "C05": ("exploration", "runtime monitoring: wire reference model for mutating opcodes + full root snapshot diff + disk read-back of uploads; direct library calls on view objects",
@@ -24,7 +24,7 @@ CHECKS = {
  "C06": ("exploration", "runtime monitoring: wire reference comparator of listings (multiset), stat and dir-size against the harness's own lstat/stat walk",
          "Generated directory shapes incl. symlinks, long and non-ASCII names and thousands of entries; all three listing commands and their interleavings, STAT and DIRSIZE of every path.",
          "Trusted: harness walk via raw syscalls; atime compared with tolerance.", "4/C06"),
- "C07": ("exploration", "runtime monitoring: independent tolerant ISO9660/Joliet reader decodes every produced image (library, network, make-iso) and compares the file multiset with the source tree",
+ "C07": ("exploration", "runtime monitoring: independent tolerant ISO9660/Joliet reader decodes every produced image (library, network, make-iso) and compares the file multiset with the source tree; where installed, libarchive bsdtar as a second third-party decoder (Joliet extraction byte-compared, primary listing)",
          "Random trees (depth, fan-out, boundary sizes, empty files/dirs, sparse >4 GiB files, shuffled readdir order) in both modes; both hierarchies must contain exactly the source tree with exact sizes and bytes.",
          "Trusted: the harness ISO reader anchored on a third-party image shipped in the repository's testdata.", "4/C07"),
  "C08": ("exploration", "runtime monitoring: strict structural validator (only the invariants the statement lists, V01-V11) over every produced image",
@@ -42,7 +42,7 @@ CHECKS = {
  "C12": ("exploration", "Go race detector on the real server and binary under concurrent sessions + per-client wire reference model (non-interference) + overlap counter",
          "2..64 concurrent oracle-checked sessions over shared data, the same generated image and private writable subtrees under several GOMAXPROCS, with churn and injected yields; zero race reports and every client stream equal to its sequential prediction.",
          "Trusted: Go race detector (reports only races that happen in the run); overlap floor enforced.", "4/C12"),
- "C13": ("fault_enumeration", "fault enumeration at the file-system seam (EIO / short read / failing close at every operation index) with handle ledger, goroutine profile and wire prefix rule",
+ "C13": ("fault_enumeration", "fault enumeration at the file-system seam (EIO / ENOENT / short read / failing close at every operation index, cold-start runs, healthy replay) with handle ledger, goroutine profile (progress-aware wait) and wire prefix rule",
          "For each scenario a recording run counts the K file-system operations, then one run per index with an injected fault; ledger must balance, serveConn goroutines return to baseline, responses must be fault-free, failure code or correct prefix + EOF, and a fresh connection must be served.",
          "Trusted: spyfs ledger (single mutex), goroutine profile text; single faults exhaustive per scenario, pairs sampled.", "4/C13"),
  "C14": ("exploration", "runtime differential monitor: ParseIPRange/Contains against an independent netip/big reference over generated specs and probes; exhaustive membership for small blocks",
@@ -63,7 +63,7 @@ CHECKS = {
  "C19": ("exploration", "runtime monitoring: behaviour probes of the real binary per (setting, channel) and flag-vs-channel conflicts; exit status for malformed values",
          "Each setting through each channel must show its observable effect; a flag must win over env/ini; malformed security-relevant values must stop start-up.",
          "Trusted: probes (marker files, connect, MKDIR result, log format).", "4/C19"),
- "C20": ("exploration", "runtime monitoring: three-way byte comparison (tool output, server view, reference) + snapshot of the output location before/after each tool invocation",
+ "C20": ("exploration", "runtime monitoring: three-way byte comparison (tool output, server view, reference) + snapshot of the output location before/after each tool invocation + strace-timed adversary that creates the output between the tool's lookup and its open",
          "make-iso output equals the served image (masked); decrypt output equals the reference plaintext with cleared header, to file and stdout; served back unchanged; existing outputs never modified.",
          "Trusted: C18 mask, refcrypt, snapshots.", "4/C20"),
 }
